@@ -16,7 +16,7 @@ it builds spec-encoded bytes and echoes the xids it read from the bytes the cont
      non-blocking sockets, honest select) with messages split across reads and read-size boundaries
      (pending bytes exactly 2047/2048/2049/4095/4096/4097, features replies of 41..86 ports);
  (f) application listeners that ACT during the delivery of a life-cycle event (re-entrant use of the
-     connection): for every (source nexus|Connection) x (ConnectionUp|ConnectionDown|PortStatus) x
+     connection): for every (source nexus|Connection) x (ConnectionHandshakeComplete|ConnectionUp|FeaturesReceived|PortStatus|ConnectionDown) x
      (close | disconnect | send that fails | sendToDPID | raise) x (the event's connection | the older
      connection of the same datapath) x (once per connection | every time), histories of one connection
      (every prefix, then [send error,] close) and of two connections of one datapath (every merge order);
@@ -31,6 +31,16 @@ it builds spec-encoded bytes and echoes the xids it read from the bytes the cont
      drawn is the last one below 2**31 (wrap-around) / 2**24 / 2**16 / 2**8, for every n a handshake (or two)
      can draw; every combination of the nexus / handshake options that decide which requests the handshake sends;
      the switch choosing 0 / 0xffffffff / the pending request's xid for the messages it originates.
+ (j) handshake messages AGAIN after connection-up: breadth-first search over histories of two announced connections
+     (one datapath, either announcement order; two datapaths) in which a second hello / an application's features request
+     is answered by a second features reply (+ port-status in the same read), with send errors and closes in between
+     (a stale or lost connection must not re-register itself);
+ (k) the lattice of UNRELATED errors (xid choice x type/code x error body, mc.refs.c09_lifecycle.err_kinds) at every
+     position of the handshake: none of them is the barrier-unsupported error, none may complete the handshake;
+ (l) faults of the real loop: recv() raising each errno a lost TCP connection produces, an exceptional condition reported
+     by select, accept() raising each errno of a failed attempt / resource shortage, the controller's hello meeting EPIPE -
+     after every step of a handshake, next to an announced connection of the same / of another datapath, followed by a
+     reconnect; the loop must go on serving (a connection lost later still gets its ConnectionDown).
 In every part an application listener reads the registry DURING the delivery of every life-cycle event.
 
 Oracle: mc.refs.c09_lifecycle.Ref, evaluated after every operation (events on the nexus and on the
@@ -102,8 +112,10 @@ class World (object):
     self.fires = 0
     self.lsn_epipe = {}                 # slot -> failed sends scripted by a listener
     self.lprobe_n = 0
+    self.tag = ""                       # cause suffix of registry keys for the operation being checked
     ofm = self.st.ofm
-    for name, ev in (("ConnectionUp", ofm.ConnectionUp), ("ConnectionDown", ofm.ConnectionDown), ("PortStatus", ofm.PortStatus)):
+    for name, ev in (("ConnectionUp", ofm.ConnectionUp), ("ConnectionDown", ofm.ConnectionDown), ("PortStatus", ofm.PortStatus),
+                     ("ConnectionHandshakeComplete", ofm.ConnectionHandshakeComplete), ("FeaturesReceived", ofm.FeaturesReceived)):
       # after the recorder (same source, lower priority): the logs keep the order in which events are RAISED
       self.st.nexus.addListener(ev, (lambda e, name=name: self.on_event(name, "nexus", e)), priority=-1)
     if self.ret and self.ret[0] == "nexus":
@@ -159,6 +171,7 @@ class World (object):
     for name, ev in (("ConnectionUp", ofm.ConnectionUp), ("ConnectionDown", ofm.ConnectionDown), ("PortStatus", ofm.PortStatus)):
       con.addListener(ev, (lambda e, name=name, i=i: self.con_events.append((name, i, e))))
       con.addListener(ev, (lambda e, name=name: self.on_event(name, "connection", e)), priority=-1)
+    con.addListener(ofm.FeaturesReceived, (lambda e: self.on_event("FeaturesReceived", "connection", e)), priority=-1)
     if self.ret and self.ret[0] == "connection":
       con.addListener(getattr(ofm, self.ret[1]), self._ret_listener(self.ret[1], "connection"), priority=-2)
 
@@ -230,6 +243,7 @@ class World (object):
     raised = None
     self.transitions += 1
     self.cur = cur = [i, items, 0]
+    if any(k == "features-again" for k, s in items): self.tag = ":after-post-handshake-features-reply"
     lep0 = self.lsn_epipe.get(i, 0)
     try:
       r = self._feed(i, data, cuts)
@@ -298,6 +312,14 @@ class World (object):
     self.lines.append("send-error(%d): %s of a barrier request, socket raises EPIPE" % (i, via))
     return self.check(i, "send-error", via)
 
+  def app_request_features (self, i):
+    """An application sends a features request on connection i (the switch will answer it later)."""
+    import pox.openflow.libopenflow_01 as of
+    self.guarded("Connection.send", self.con(i).send, of.ofp_features_request())
+    tx = self.absorb(i)
+    self.lines.append("request-features(%d): application sends a features request on the connection, controller wrote %s" % (i, tx))
+    return self.check(i, "request-features", tx)
+
   # ---- application listeners ------------------------------------------------------
   MAX_NEST = 6          # an acting listener re-entered deeper than this stops acting (bounds runaway recursion)
 
@@ -321,7 +343,9 @@ class World (object):
     for d, s in sorted(reg.items(), key=repr):
       rc = self.ref.cons.get(s)
       if rc is None or not rc.live or (name == "ConnectionDown" and s == slot):
-        self.fail("registry:during-%s:lost-connection-registered" % name,
+        if any(b[0].startswith("%s:registry:during-" % PID) and "lost-connection-registered" in b[0] for b in self.bad):
+          continue      # one defect, one key: the first event during which it shows
+        self.fail("registry:during-%s:lost-connection-registered%s" % (name, self.tag),
                   "while %s for connection %r is delivered on the %s, datapath %r is registered to connection %r which %s"
                   % (name, slot, where, d, s, "is the one reported down" if (name == "ConnectionDown" and s == slot) else "is lost"))
     if name == "ConnectionUp" and ref is not None and ref.live and reg.get(ref.dpid) != slot:
@@ -379,6 +403,11 @@ class World (object):
       c.post = [x for x in c.post if x in done]
       if name == "ConnectionUp" and where == "nexus" and tgt == slot:
         c.dropped_during_nexus_up = True      # ConnectionUp on the Connection itself has not been raised yet
+      if name == "ConnectionHandshakeComplete" and tgt == slot:
+        # lost after the barrier reply but BEFORE it was announced anywhere: connection-up is no longer demanded
+        # (and must not follow the connection-down the drop may produce)
+        c.completed_live = False
+        c.dropped_before_up = name
     if closed: self.ref.closed(tgt)
     else: self.ref.lost(tgt)
     self.acted.add(tgt)
@@ -453,6 +482,8 @@ class World (object):
     # port status
     if pss and not ups and where == "connection" and getattr(c, "dropped_during_nexus_up", False):
       pass      # the Connection object never announced the connection a nexus listener dropped: nothing is said about its later messages
+    elif pss and not ups and getattr(c, "dropped_before_up", None):
+      pass      # lost before it was announced anywhere: nothing is said about the messages it still receives
     elif pss and not ups and up_halted:
       pass      # ConnectionUp was halted on the nexus: the Connection object passes port-status on without having announced itself
     elif pss and (not ups or pss[0][0] < ups[0]):
@@ -484,6 +515,9 @@ class World (object):
         # but announcing a connection on it after it was reported down is the same clause with a cause of its own
         self.fail("down:before-up:connection:dropped-by-nexus-ConnectionUp-listener",
                   "a ConnectionUp listener on the nexus closed/disconnected connection %d; the Connection then raised ConnectionDown and AFTER it ConnectionUp" % i)
+      elif getattr(c, "dropped_before_up", None):
+        self.fail("down:before-up:%s:dropped-by-%s-listener" % (where, c.dropped_before_up),
+                  "a %s listener closed/disconnected connection %d before it was announced; ConnectionDown was raised on the %s and AFTER it ConnectionUp" % (c.dropped_before_up, i, where))
       else:
         self.fail("down:before-up:%s" % where, "ConnectionDown precedes ConnectionUp for connection %d" % i)
     if announced:
@@ -513,7 +547,9 @@ class World (object):
         elif not rc.live: cl = "lost-connection-registered"
         elif not rc.completed: cl = "half-handshaken-connection-registered"
         else: cl = "not-most-recent-connection"
-        self.fail("registry:%s" % cl, "after %s(%d): datapath %d is registered to connection %r (stage %s, live %s); live fully handshaken connections: %r"
+        if self.tag and cl == "lost-connection-registered" and any(b[0].startswith("%s:registry:during-" % PID) and cl in b[0] for b in self.bad):
+          continue      # already reported from inside the event the re-registration raised: one defect, one key
+        self.fail("registry:%s%s" % (cl, self.tag), "after %s(%d): datapath %d is registered to connection %r (stage %s, live %s); live fully handshaken connections: %r"
                   % (op, i, d, r, rc and rc.stage, rc and rc.live, sorted(c.idx for c in self.ref.live_up(d))))
         continue
       if r is None:
@@ -604,6 +640,7 @@ class World (object):
       self.lines.append("  VIOLATED %s: %s" % (k, what))
     self.shown = len(self.bad)
     self.acted = set()
+    self.tag = ""
     return (op, tuple(ev), tuple(sorted(real.items())), tuple((d, r, tuple(g)) for d, r, g in pr), repr(obs))
 
   # ---- canonical state (part c) ------------------------------------------------
@@ -753,14 +790,28 @@ def c_script (i):
   return ((("hello", 0),), (("features", 0), ("ps-add", 1)), ((last, 0),), (("ps-mod", 2),))
 
 
+def j_script (i):
+  """The part (c) script up to connection-up, then handshake messages AGAIN on the announced connection: a features
+  request goes out after the handshake (connection 1: an application sends one; the others: the switch sends a second
+  hello, which the controller answers with a features request), the switch answers it with a second features reply
+  (+ a port-status in the same read), then one more port-status."""
+  again = (("app-features-request", 0),) if i == 1 else (("hello", 0),)
+  return c_script(i)[:3] + (again, (("features-again", 0), ("ps-add", 3)), (("ps-mod", 4),))
+
+
+SCRIPTS = {"c": c_script, "j": j_script}
+J_DEPTH = {False: 7, True: 10}
+
+
 class CWorld (object):
-  def __init__ (self, dpids, spec=None, ret=None, opts=None):
+  def __init__ (self, dpids, spec=None, ret=None, opts=None, script="c"):
     self.w = World(dpids, spec, ret=ret, opts=opts)
     self.n = len(dpids)
     self.pos = [0] * self.n
+    self.script = SCRIPTS[script]
 
   def next_chunk (self, i):
-    sc = c_script(i)
+    sc = self.script(i)
     if self.pos[i] >= len(sc): return None
     ch = sc[self.pos[i]]
     if not self.w.peers[i].can(ch[0][0]): return None
@@ -775,6 +826,9 @@ class CWorld (object):
       if c.closed: continue
       ch = self.next_chunk(i)
       if ch is not None: o.append(("deliver", i))
+      if ch is not None and ch[0][0] == "app-features-request" and not c.live:
+        o.pop()           # an application does not write to a connection it knows is gone
+        ch = None
       if c.live:
         if c.completed: o.append(("send-error", i))
         elif ch is not None and any(w.ref.makes_controller_send(i, k) for k, s in ch): o.append(("send-error", i))
@@ -791,7 +845,7 @@ class CWorld (object):
     announced (the faithful switch cannot answer a request it did not receive)."""
     w = self.w
     for i in sorted(w.cidx):
-      c = w.ref.cons[i]; sc = c_script(i)
+      c = w.ref.cons[i]; sc = self.script(i)
       if not c.live or c.closed or self.pos[i] >= len(sc): continue
       k = sc[self.pos[i]][0][0]
       if k in L.HS_KINDS and not w.peers[i].can(k):
@@ -809,6 +863,7 @@ class CWorld (object):
       if kind == "close": return w.close(i)
       if kind == "deliver":
         ch = self.next_chunk(i); self.pos[i] += 1
+        if ch[0][0] == "app-features-request": return w.app_request_features(i)
         return w.deliver(i, list(ch))
       if kind == "send-error":
         if w.ref.cons[i].completed: return w.app_send_fail(i)
@@ -821,9 +876,9 @@ class CWorld (object):
     return self.w.key(self.pos)
 
 
-def make_expand (dpids, root):
+def make_expand (dpids, root, script="c"):
   def expand (h):
-    cw = CWorld(dpids)
+    cw = CWorld(dpids, script=script)
     try:
       out = None
       for op in root: cw.apply(op)
@@ -831,7 +886,7 @@ def make_expand (dpids, root):
         return dict(key=("bad-root",), ops=[], bad=[], out=None)
       for op in h: out = cw.apply(op)
       return dict(key=cw.key(), ops=cw.ops() if not cw.w.bad else [], bad=list(cw.w.bad) if h else [], out=out,
-                  replay_extra=dict(part="c", dpids=list(dpids), root=[list(o) for o in root]))
+                  replay_extra=dict(part="c", dpids=list(dpids), root=[list(o) for o in root], script=script))
     finally:
       cw.w.dispose()
   return expand
@@ -895,6 +950,35 @@ def _d_worker (item):
 # =============================================================================
 # part (e): the REAL OpenFlow_01_Task.run loop, handshake / life-cycle streams under segmentations
 # =============================================================================
+_FAULT_CLASSES = {}
+def fault_classes ():
+  """The scripted socket / listener of mc.props.c10 with scripted FAULTS: recv() raising a given exception once the
+  queued bytes are used up, accept() raising a queued exception instead of handing out a socket."""
+  if not _FAULT_CLASSES:
+    from mc.props.c10 import CSock, FakeListener
+    class FSock (CSock):
+      recv_exc = None
+      def recv (self, n, flags=0):
+        if self.recv_exc is not None and not self.closed and not self.rd_shut and not self.rx: raise self.recv_exc
+        return CSock.recv(self, n, flags)
+    class FListener (FakeListener):
+      def accept (self):
+        s = self.q.pop(0)
+        if isinstance(s, BaseException): raise s
+        return (s, s.name)
+    _FAULT_CLASSES.update(sock=FSock, listener=FListener)
+  return _FAULT_CLASSES
+
+
+def os_error (name):
+  """The exception the socket layer raises for an errno (Python picks the OSError subclass, if the errno has one)."""
+  import errno as E
+  if name == "socket.timeout":
+    import socket
+    return socket.timeout("timed out")
+  return OSError(getattr(E, name), os.strerror(getattr(E, name)))
+
+
 class TaskWorld (World):
   """World whose I/O loop is the real OpenFlow_01_Task.run generator (driver pieces shared with
   mc.props.c10): a fake `socket` module hands out a scripted listener, every yielded Select is answered
@@ -905,11 +989,12 @@ class TaskWorld (World):
 
   def __init__ (self, dpids):
     World.__init__(self, dpids)
-    from mc.props.c10 import CSock, FakeListener, FakeSocketModule
-    self.CSock = CSock
+    from mc.props.c10 import FakeSocketModule
+    self.CSock = fault_classes()["sock"]
     of01 = self.of01
     self.st.core.running = True
-    self.lst = FakeListener()
+    self.lst = fault_classes()["listener"]()
+    self.fault_tag = ""
     self._old_socket = of01.socket
     of01.socket = FakeSocketModule(self.lst)
     task = object.__new__(of01.OpenFlow_01_Task)      # no core listener, no Task bookkeeping
@@ -933,22 +1018,28 @@ class TaskWorld (World):
   def rlist (self):
     return self.sel._args[0]
 
-  def step (self, r):
+  def step (self, r, x=()):
     self.transitions += 1
     if self.sel is not None and any(x.fileno() < 0 for x in self.rlist()):
       self.fail("loop:closed-socket-left-in-select-set", "the loop selects on a closed socket (select raises ValueError, the select hub dies)")
       raise Stop()
     try:
       if self.sel is None: self.sel = next(self.g)
-      else: self.sel = self.g.send((list(r), [], []))
+      else: self.sel = self.g.send((list(r), [], list(x)))
     except StopIteration:
-      self.fail("loop:ended", "OpenFlow_01_Task.run returned"); raise Stop()
+      self.fail("loop:ended" + self.fault_tag, "OpenFlow_01_Task.run returned%s: no connection is served any more (losses go unnoticed, no switch can reconnect)"
+                % (" " + self.fault_tag.strip(":").replace("-", " ") if self.fault_tag else ""))
+      self.lines.append("  VIOLATED %s: %s" % self.bad[-1]); self.shown = len(self.bad)
+      raise Stop()
     except Exception as e:
-      self.fail("loop:died:%s:%s" % (pox_site(sys.exc_info()[2]), type(e).__name__), "OpenFlow_01_Task.run raised %s: %s" % (type(e).__name__, e))
+      self.fail("loop:died:%s:%s" % (pox_site(sys.exc_info()[2]), type(e).__name__), "OpenFlow_01_Task.run raised %s: %s%s: no connection is served any more"
+                % (type(e).__name__, e, " " + self.fault_tag.strip(":").replace("-", " ") if self.fault_tag else ""))
+      self.lines.append("  VIOLATED %s: %s" % self.bad[-1]); self.shown = len(self.bad)
       raise Stop()
 
+  _preset = None
   def _accept (self, i):
-    s = self.CSock(("switch", 100 + i))
+    s = self._preset or self.CSock(("switch", 100 + i))
     self.lst.q.append(s)
     before = set(id(x) for x in self.rlist())
     self.step([self.lst])
@@ -956,6 +1047,61 @@ class TaskWorld (World):
     if len(new) != 1:
       self.fail("loop:accept", "accepting a connection added %d objects to the select set" % len(new)); raise Stop()
     self.st.cons.append(new[0])
+
+  # ---- faults (part l) -----------------------------------------------------------
+  def open_hello_fails (self, i):
+    """Connection i is accepted but the peer is already gone: the controller's hello meets EPIPE."""
+    s = self.CSock(("switch", 100 + i)); s.send_script = ["epipe"]
+    self._preset = s
+    try: out = self.open(i)
+    finally: self._preset = None
+    self.ref.lost(i)
+    self.lines.append("  (the hello written to connection %d was answered by EPIPE)" % i)
+    if self.serve(i):
+      self.fail("loop:lost-connection-left-in-select-set", "connection %d was given up by the controller (send failed) but stays in the select set" % i); raise Stop()
+    self.ref.closed(i)
+    return out, self.check(i, "close", "after failed hello")
+
+  def fault_recv (self, i, name):
+    """select reports connection i readable; recv() raises."""
+    con = self.con(i)
+    con.sock.recv_exc = os_error(name)
+    self.lines.append("recv-error(%d): recv() on connection %d raises %s" % (i, i, type(con.sock.recv_exc).__name__ + "(" + name + ")"))
+    self.fault_tag = ":after-recv-error"
+    self.step([con])
+    self.fault_tag = ""
+    if con in self.rlist():
+      self.fail("loop:recv-error-ignored", "recv() on connection %d raised %s but the connection stays in the select set" % (i, name)); raise Stop()
+    self.ref.closed(i)
+    return self.check(i, "close", "recv " + name)
+
+  def fault_exceptional (self, i):
+    """select reports an exceptional condition on connection i."""
+    con = self.con(i)
+    self.lines.append("exceptional(%d): select reports connection %d in its exceptional set" % (i, i))
+    self.fault_tag = ":after-exceptional-condition"
+    self.step([], [con])
+    self.fault_tag = ""
+    if con in self.rlist():
+      self.fail("loop:exceptional-condition-ignored", "select reported connection %d in the exceptional set but it stays in the select set" % i); raise Stop()
+    self.ref.closed(i)
+    return self.check(i, "close", "exceptional")
+
+  def fault_accept (self, name):
+    """select reports the listener readable; accept() raises (the connection attempt failed or the process is
+    momentarily out of resources).  Nothing happened to any existing connection."""
+    before = [id(x) for x in self.rlist()]
+    self.lst.q.append(os_error(name))
+    self.lines.append("accept-error: accept() raises %s" % (type(self.lst.q[-1]).__name__ + "(" + name + ")"))
+    self.fault_tag = ":after-accept-error"
+    self.step([self.lst])
+    self.fault_tag = ""
+    if [id(x) for x in self.rlist()] != before:
+      self.fail("loop:accept-error:select-set-changed", "after accept() raised %s the loop selects on %d objects instead of %d (listener still in: %s)"
+                % (name, len(self.rlist()), len(before), self.lst in self.rlist())); raise Stop()
+    i = sorted(self.cidx)[0] if self.cidx else None
+    if i is None: return ("accept-error", name)
+    return self.check(i, "accept-error", name)
 
   def serve (self, i):
     """Answer selects until connection i has nothing pending or has left the select set."""
@@ -1087,17 +1233,109 @@ def _e_worker (cases):
 
 
 # =============================================================================
+# part (l): faults of the real loop - recv() raising, exceptional condition, accept() raising, hello meeting EPIPE
+# =============================================================================
+# what recv() raises on a TCP connection that is lost (reset, keep-alive / retransmission time-out, ICMP unreachable, ...)
+RECV_ERRORS = ("ECONNRESET", "ETIMEDOUT", "EHOSTUNREACH", "ENETUNREACH", "ENETDOWN", "ECONNABORTED", "EPIPE", "ENOTCONN", "socket.timeout")
+# accept(2): the connection attempt failed / was withdrawn, or the process is momentarily out of resources; the listening
+# socket stays usable after every one of them
+ACCEPT_ERRORS = ("ECONNABORTED", "ECONNRESET", "EAGAIN", "EPROTO", "EHOSTUNREACH", "ENETUNREACH", "ENETDOWN", "ETIMEDOUT",
+                 "EMFILE", "ENFILE", "ENOBUFS", "ENOMEM")
+
+def gen_l_cases (thorough):
+  """(pre, last, p, fault): connection 1 goes through [accept][hello][features reply + port-status][desc][barrier reply |
+  unsupported][port-status + echo request]; the fault happens after p of these 6 steps; fault = ('recv', target, errno) |
+  ('exceptional', target) | ('accept', errno) | ('hello-epipe',).  pre: 0, or the datapath id (1 = the same, 2 = another)
+  of a connection 0 that is announced before.  Afterwards connection 2 of the same datapath connects and completes its handshake (a reconnect), and
+  every connection still open reaches end-of-stream."""
+  cases = []
+  for pre in (0, 1, 2):
+    for last in ("barrier", "barrier-unsup"):
+      for p in range(7):
+        targets = ([1] if p >= 1 else []) + ([0] if pre else [])
+        for t in targets:
+          for e in RECV_ERRORS: cases.append((pre, last, p, ("recv", t, e)))
+          cases.append((pre, last, p, ("exceptional", t)))
+        for e in ACCEPT_ERRORS: cases.append((pre, last, p, ("accept", e)))
+        cases.append((pre, last, p, ("hello-epipe",)))
+  return cases
+
+
+def run_fault_case (case):
+  pre, last, p, fault = case
+  fault = tuple(fault)
+  w = TaskWorld([pre or 1, 1, 1, 1])
+  outs = []
+  def handshake (i, chunks):
+    for items in chunks:
+      if w.bad: raise Stop()
+      if w.ref.cons[i].closed: return
+      if not all(w.peers[i].can(k) for k, s in items):
+        w.fail("handshake:stalled:no-%s-request" % items[0][0], "the switch never received the request it has to answer with '%s' (controller wrote %r)" % (items[0][0], w.peers[i].got))
+        raise Stop()
+      outs.append(w.deliver(i, items))
+  def do_fault ():
+    if fault[0] == "recv": outs.append(w.fault_recv(fault[1], fault[2]))
+    elif fault[0] == "exceptional": outs.append(w.fault_exceptional(fault[1]))
+    elif fault[0] == "accept": outs.append(w.fault_accept(fault[1]))
+    else: outs.extend(w.open_hello_fails(3))
+    if w.bad: raise Stop()
+  try:
+    try:
+      if pre:
+        outs.append(w.open(0))
+        handshake(0, e_chunks("barrier", "ps")[:4])
+      if w.bad: raise Stop()
+      steps = [None] + e_chunks(last, "ps")
+      for n, items in enumerate(steps):
+        if n == p: do_fault()
+        if items is None: outs.append(w.open(1))
+        elif not w.ref.cons[1].closed: handshake(1, [items])
+        if w.bad: raise Stop()
+      if p == len(steps): do_fault()
+      # a reconnect of the same datapath, then every connection reaches end-of-stream (oldest first)
+      outs.append(w.open(2))
+      handshake(2, e_chunks("barrier", None)[:4])
+      for i in (0, 1, 2):
+        if w.bad: raise Stop()
+        if i in w.cidx and not w.ref.cons[i].closed: outs.append(w.close(i))
+    except Stop:
+      pass
+  finally:
+    w.dispose()
+  return w, outs
+
+
+def _l_worker (cases):
+  from mc.env import boot
+  boot()
+  rep = Report(PID, "model_checking")
+  for case in cases:
+    w, outs = run_fault_case(case)
+    rep.evaluations += 1
+    rep.transitions += w.transitions
+    rep.outcome(("loop-fault", case[3][0], tuple(outs)))
+    data = dict(part="l", case=_jsonable(case))
+    for k, what in w.bad: rep.violation(k, what, data)
+    if not w.bad and rep.evaluations % 97 == 5: rep.sample(dict(case=data, trace=w.lines))
+  return rep
+
+
+# =============================================================================
 # part (f): application listeners that act on a connection DURING the delivery of its life-cycle events
 # =============================================================================
 F_EVENTS = ("ConnectionUp", "ConnectionDown", "PortStatus")
+# every event class raised while a connection comes up / carries port-status / goes down, on each source that raises it
+F_SOURCES = (("nexus", "ConnectionHandshakeComplete"), ("nexus", "ConnectionUp"), ("nexus", "FeaturesReceived"), ("nexus", "PortStatus"),
+             ("nexus", "ConnectionDown"), ("connection", "ConnectionUp"), ("connection", "FeaturesReceived"), ("connection", "PortStatus"),
+             ("connection", "ConnectionDown"))
 
 def gen_specs ():
   """(where, event, action, target, mode).  close/disconnect: a listener that acts once per connection
   and one that acts every time it is called; target 'older' = the connection of the same datapath the
   application saw come up before the event's connection (sendToDPID addresses the datapath: self only)."""
   out = []
-  for where in ("nexus", "connection"):
-    for ev in F_EVENTS:
+  for where, ev in F_SOURCES:
       for target in ("self", "older"):
         for action, modes in (("close", ("once", "always")), ("disconnect", ("once", "always")), ("send-epipe", ("always",)),
                               ("sendToDPID", ("always",)), ("raise", ("always",))):
@@ -1420,6 +1658,44 @@ def _i_worker (item):
   return rep
 
 
+# =============================================================================
+# part (k): the lattice of unrelated errors at every position of the handshake
+# =============================================================================
+def gen_k_cases (thorough):
+  """(kind, position, last, mode): one error of the lattice (xid choice x type/code x body choice, see
+  mc.refs.c09_lifecycle.err_kinds) at each of the 5 positions of the handshake script, either barrier flavour; then close."""
+  cases = []
+  for kind in L.err_kinds():
+    for pos in range(NSLOT):
+      for last in ("barrier", "barrier-unsup"):
+        modes = [m for m, ch in chunkings(((pos, kind),), last)]
+        for mode in (modes if thorough else modes[:1]): cases.append((kind, pos, last, mode))
+  return cases
+
+
+def run_k_case (case):
+  kind, pos, last, mode = case
+  chunks = dict(chunkings(((pos, kind),), last))[mode]
+  return run_script(chunks, ("close", sum(len(c) for c in chunks)))
+
+
+def _k_worker (item):
+  from mc.env import boot
+  boot()
+  rep = Report(PID, "model_checking")
+  for case in item:
+    w, outs = run_k_case(case)
+    rep.evaluations += 1
+    rep.transitions += w.transitions
+    rep.outcome(("error-lattice", case[1], case[2], tuple(outs)))
+    data = dict(part="k", case=list(case))
+    for k, what in w.bad: rep.violation(k, what, data)
+    if w.read_exceptions:
+      rep.extra["read_exceptions_contained_by_io_loop"] = rep.extra.get("read_exceptions_contained_by_io_loop", 0) + len(w.read_exceptions)
+    if not w.bad and rep.evaluations % 2999 == 5: rep.sample(dict(case=data, trace=w.lines))
+  return rep
+
+
 UP0 = (("open", 0), ("deliver", 0), ("deliver", 0), ("deliver", 0))
 
 
@@ -1449,7 +1725,8 @@ def run (cfg):
               "Connection, the registry (items()) and a sendToDPID probe per datapath id are compared with the reference life-cycle, and every other "
               "registry view (getConnection, [dpid], membership by dpid and by connection, keys(), values(), iteration, len, .dpids, iter_dpids()) "
               "is read and compared with items(). (f) application listeners acting DURING event delivery: every listener behaviour "
-              "(source nexus | Connection) x (ConnectionUp | ConnectionDown | PortStatus) x {close, disconnect (each: once per connection / every time it is called), "
+              "(source, event) in {nexus: ConnectionHandshakeComplete, ConnectionUp, FeaturesReceived, PortStatus, ConnectionDown; Connection: ConnectionUp, "
+              "FeaturesReceived, PortStatus, ConnectionDown} x {close, disconnect (each: once per connection / every time it is called), "
               "send answered by EPIPE, sendToDPID of the event's datapath, raise} x target {the event's own connection, the older announced connection of the same "
               "datapath} (%d behaviours), each under: one connection (either barrier flavour) - every prefix of [hello][features reply + port-status][barrier "
               "reply | unsupported][port-status], then optionally send-error, then close (20 histories); two connections of ONE datapath - every merge order of "
@@ -1468,8 +1745,17 @@ def run (cfg):
               "(nexus.miss_send_len in {128, None, 0}) x (clear_flows_on_connect) x (HandshakeOpenFlowHandlers.request_description) and the switch using xid "
               "0 / 0xffffffff / the xid of the pending controller request for its own hello, port-status, echo-request and packet-in (%d combinations), each "
               "under those scripts and histories with the default counter and with the counter wrapping at each of the first 10 draws. "
+              "(j) breadth-first search with state matching, depth <=%d, from three roots (two announced connections of datapath 1 in either announcement "
+              "order; of datapaths 1 and 2) over {deliver-next(i), send-error(i), close(i)} with the per-connection continuation [second hello (answered by the "
+              "controller with a features request) | application sends a features request][second features reply + port-status][port-status]. "
+              "(k) one error from the lattice xid %r x (type, code) %r x body %r (minus the barrier-unsupported error itself: %d errors) at each of the 5 "
+              "positions of the handshake script, either barrier flavour, %s, then close. "
+              "(l) the real loop with faults: after each of the 0..6 steps [accept][hello][features reply + port-status][desc][barrier reply | unsupported]"
+              "[port-status + echo request] of connection 1 - alone, next to an announced connection 0 of the same datapath, of another datapath - one of: recv() "
+              "on connection 1 / connection 0 raises %r; select reports it in the exceptional set; accept() raises %r; a connection is accepted whose hello "
+              "meets EPIPE; then a further connection of datapath 1 connects and is announced and every open connection reaches end-of-stream (%d cases). "
               "In ALL parts an application listener on the nexus and on every Connection reads the registry during the delivery of every ConnectionUp / "
-              "ConnectionDown / PortStatus (no lost connection registered; the connection being announced is the one registered). "
+              "ConnectionDown / PortStatus / ConnectionHandshakeComplete / FeaturesReceived (no lost connection registered; the connection being announced is the one registered). "
               "distinct = (script shape, loss, "
               "observation sequence) for (a)/(b), (last op, observation) for (c), (listener behaviour, observation sequence) for (f), observation sequence for (g)"
               % (kmax, list(kinds), depth, " / ".join(str(r[0]) for r in roots), cfg.pick(1, 2),
@@ -1480,8 +1766,11 @@ def run (cfg):
                  cfg.pick(70, 126),
                  ["%s:%s" % x for x in RET_EVENTS], list(RET_ORDER), len(gen_rets()), cfg.pick(2, 3), list(cfg.pick(("ps-add",), ("ps-add", "ps-mod", "echo"))),
                  len(h_scripts(not cfg.quick)), ["2**31", "2**16", "2**8", "2**24"], cfg.pick(16, 32), cfg.pick("", " (thorough: every B)"), cfg.pick(1, 2),
-                 len(gen_opts())))
-  rep.bound = dict(listener_return_behaviours=len(gen_rets()), xid_counter_offsets=cfg.pick(16, 32), xid_boundaries=[1 << 31, 1 << 16, 1 << 8, 1 << 24],
+                 len(gen_opts()),
+                 J_DEPTH[not cfg.quick], list(L.ERR_XIDS), list(L.ERR_CODES), list(L.ERR_BODIES), len(L.err_kinds()),
+                 cfg.pick("one message per recv", "every segmentation"), list(RECV_ERRORS), list(ACCEPT_ERRORS), len(gen_l_cases(not cfg.quick))))
+  rep.bound = dict(error_lattice=len(L.err_kinds()), post_handshake_bfs_depth=J_DEPTH[not cfg.quick], recv_errors=list(RECV_ERRORS), accept_errors=list(ACCEPT_ERRORS),
+                   listener_return_behaviours=len(gen_rets()), xid_counter_offsets=cfg.pick(16, 32), xid_boundaries=[1 << 31, 1 << 16, 1 << 8, 1 << 24],
                    option_combinations=len(gen_opts()),
                    async_messages=kmax, async_kinds=list(kinds), bfs_depth=depth, connections=3, datapath_ids=2,
                    listener_behaviours=len(gen_specs()), listener_nesting=World.MAX_NEST, listener_connections=2,
@@ -1501,6 +1790,14 @@ def run (cfg):
     "a listener that halts an event does so AFTER the harness's recorder saw it (a listener that hides the event from every later listener cannot be "
     "observed); ConnectionUp / PortStatus halted on the nexus are by pox's design not raised on the Connection object, and the statement does not name "
     "the source, so the Connection's own log is not asked for them (everything raised on the nexus is demanded regardless of halts)",
+    "an error is the barrier-unsupported error only if it carries the xid of the handshake's barrier request and type/code BAD_REQUEST/BAD_TYPE; "
+    "every other error (whatever its body) is unrelated and must not complete the handshake",
+    "a features reply received after connection-up (answer to a second features request) changes nothing in the life-cycle: the registry still maps the "
+    "datapath to its most recently announced live connection",
+    "an accept() that fails with the errno of a failed attempt or of a resource shortage, a recv() that raises, an exceptional condition: each concerns "
+    "one connection (attempt); the loop must go on serving the others (otherwise their later loss goes unreported)",
+    "a connection an application listener drops during ConnectionHandshakeComplete is lost BEFORE it was announced: ConnectionUp is not demanded "
+    "for it and must not follow the ConnectionDown the drop produces",
     "the xid counter state is produced with pox's own xid_generator(start) (2**31 real draws are out of reach); the oracle demands nothing about xid "
     "values themselves, only that the life-cycle is unaffected by them",
     "state key = reference model + every life-cycle field of each real Connection, its handshake handler, socket flags, event logs and the real registry",
@@ -1531,6 +1828,14 @@ def run (cfg):
     for r in pmap(_e_worker, split(cases, max(1, cfg.workers * 4)), cfg.workers, seed=cfg.seed):
       rep.merge(r)
     rep.extra["real_loop_cases"] = len(cases)
+    rep.state_count += rep.evaluations - n0
+  # ---- (l)
+  if only in (None, "l"):
+    cases = gen_l_cases(not cfg.quick)
+    n0 = rep.evaluations
+    for r in pmap(_l_worker, split(cases, max(1, cfg.workers * 4)), cfg.workers, seed=cfg.seed):
+      rep.merge(r)
+    rep.extra["loop_fault_cases"] = len(cases)
     rep.state_count += rep.evaluations - n0
   # ---- (f)
   if only in (None, "f"):
@@ -1569,6 +1874,21 @@ def run (cfg):
       rep.merge(r)
     rep.extra["prior_state_cases"] = len(cases)
     rep.state_count += rep.evaluations - n0
+  # ---- (k)
+  if only in (None, "k"):
+    cases = gen_k_cases(not cfg.quick)
+    n0 = rep.evaluations
+    for r in pmap(_k_worker, split(cases, max(1, cfg.workers * 4)), cfg.workers, seed=cfg.seed):
+      rep.merge(r)
+    rep.extra["error_lattice_cases"] = len(cases)
+    rep.state_count += rep.evaluations - n0
+  # ---- (j)
+  if only in (None, "j"):
+    up = lambda i: (("deliver", i),) * 3
+    o01 = (("open", 0),) + up(0) + (("open", 1),) + up(1)
+    o10 = (("open", 0), ("open", 1)) + up(1) + up(0)
+    for dpids, root in (((1, 1), o01), ((1, 1), o10), ((1, 2), o01)):
+      bfs(make_expand(dpids, root, "j"), J_DEPTH[not cfg.quick], rep, workers=cfg.workers, seed=cfg.seed, max_states=cfg.pick(200000, 2000000))
   # ---- (c)
   if only in (None, "c"):
     for dpids, root, d in roots:
@@ -1603,10 +1923,17 @@ def replay (cfg, data):
     w, outs, bad = run_i_case(data["case"])
     return bool(bad), "\n".join(["xid counter re-created at %r, options (miss_send_len, clear_flows_on_connect, request_description) = %r" % (data["case"][1], data["case"][2])]
                                 + w.lines + ["=> %r" % ([k for k, _ in bad],)])
+  if data.get("part") == "l":
+    c = data["case"]
+    w, outs = run_fault_case((c[0], c[1], c[2], tuple(c[3])))
+    return bool(w.bad), "\n".join(w.lines + ["=> %r" % ([k for k, _ in w.bad],)])
+  if data.get("part") == "k":
+    w, outs = run_k_case(tuple(data["case"]))
+    return bool(w.bad), "\n".join(w.lines + ["=> %r" % ([k for k, _ in w.bad],)])
   if data.get("part") == "d":
     w, outs, bad = run_merge(data["n"], tuple(data["order"]), tuple(data["closes"]))
     return bool(bad), "\n".join(w.lines + ["=> %r" % ([k for k, _ in bad],)])
-  cw = CWorld(tuple(data.get("dpids", (1, 1, 2))))
+  cw = CWorld(tuple(data.get("dpids", (1, 1, 2))), script=data.get("script", "c"))
   lines = []
   try:
     for op in data.get("root", []): cw.apply(tuple(op))
